@@ -64,8 +64,8 @@ async fn run(cases: &str, out: &str, workdir: &str) {
         if sqlite {
             b = b.add_plugin(&acts_store_sqlite::SqliteStore);
         }
-        let engine = b.build().await.unwrap().start();
-        let ex = engine.executor();
+        let mut engine = b.build().await.unwrap().start();
+        let mut ex = engine.executor();
         // models
         let mut mids: Vec<String> = vec![];
         for (k, m) in v["models"].as_array().unwrap().iter().enumerate() {
@@ -99,6 +99,18 @@ async fn run(cases: &str, out: &str, workdir: &str) {
                 quiesce().await;
                 flush_all(&mut w, &cid, &mut procs);
                 writeln!(w, "case {cid}/{pid}: S {}", if r.is_ok() { "ok" } else { "err" }).unwrap();
+            } else if op.get("restart").is_some() {
+                // stop the engine at this quiescent point and start a new one on the same store (SQLite)
+                engine.close();
+                quiesce().await;
+                let mut b = EngineBuilder::new().set_config_source(&cfgp);
+                if sqlite {
+                    b = b.add_plugin(&acts_store_sqlite::SqliteStore);
+                }
+                engine = b.build().await.unwrap().start();
+                ex = engine.executor();
+                quiesce().await;
+                flush_all(&mut w, &cid, &mut procs);
             } else if let Some(list) = op.get("burst") {
                 // several processes started while the scheduler is held, some of them dropped from the cache before they run
                 acts::verif::gate_close();
